@@ -223,6 +223,14 @@ def main():
             print(b)
         print("audit: %d problem(s)" % len(bad))
         return 1 if bad else 0
+    if cmd == "coqchk":
+        # independent re-check of every compiled module of the development (minutes)
+        mods = [l.strip()[:-2].replace("/", ".") for l in open(os.path.join(COQ, "_CoqProject")) if l.strip().endswith(".v")]
+        ok, out = coq_build()
+        rc, out = sh(["coqchk", "-silent", "-o", "-Q", ".", "GV"] + ["GV." + m for m in mods], cwd=COQ, timeout=6 * 3600)
+        print(out[-3000:])
+        open(os.path.join(COQ, "COQCHK.txt"), "w").write(out[-3000:])
+        return rc
     if cmd == "run":
         pid = sys.argv[2]
         tier = os.environ.get("VERIF_TIER", "quick")
